@@ -114,7 +114,9 @@ def get_type_graph(t: type) -> graphlib.TopologicalSorter[TypeNode]:
     u = inspection.unwrap(t)
     root = TypeNode(t, u)
     stack = collections.deque([root])
-    visited = {root.type}
+    # The root stands for its unwrapped form as well (`NewType("N", Node)`): a member
+    #   which leads back to either closes a cycle.
+    visited = {root.type, root.unwrapped}
     while stack:
         parent = stack.popleft()
         parent_unwrapped = inspection.unwrap(parent.type)
